@@ -4,7 +4,11 @@ E1 x E2: for every length N in the bound (odd and even), every spacing in the al
 and both access paths (aotools.fouriertransform.X and the re-exported aotools.X) the
 complete operator matrices of ft/ift/ft2/ift2/rft/irft/rft2/irft2 are extracted from
 all unit inputs e_k and i*e_k, and the identities are verified on the matrices, which
-decides them for every input of that length by linearity.
+decides them for every input of that length by linearity.  The storage order of the
+half-spectra of the real-input variants is not prescribed: Hermitian weights and the frequency
+of every stored entry are derived from the library's own operator.  Spot cases: larger sizes
+(impulse probes), non-square grids, amplitudes, storage layouts / dtypes, call histories on one
+array, keyword calls and spacing types.
 """
 import itertools
 import numpy
@@ -23,17 +27,53 @@ RULE = ("cases = product(kind in {1d,2d,real1d,real2d,gauss}, N in 1..bound, del
 ASSUMPTIONS = [
     "values outside the (N, delta, batch-shape) alphabet are not covered; identities are decided "
     "for all inputs of an enumerated length by linearity, which is itself tested on the basis",
-    "2-D transforms are explored on square grids only (single spacing, delta_f = 1/(N delta))",
-    "tolerance 1e-10 relative to the operator scale (measured residuals are <= 1e-15)",
+    "2-D transforms: full operators on square grids (single spacing, delta_f = 1/(N delta)) and on the non-square "
+    "grids (Ny, Nx) in {1..5}^2 for ft2/ift2; on a non-square grid the statement does not say which N enters "
+    "delta_f = 1/(N delta), so ift2 is required to invert ft2 for one of 1/(Nx delta), 1/(Ny delta), "
+    "1/(sqrt(Nx Ny) delta) and to be proportional to the inverse for the first; a library that rejects non-square "
+    "grids is not judged there (non_square_not_claimed). rft2/irft2 are explored on square grids only",
+    "tolerance 1e-10 relative to the operator scale; measured residuals of the unchanged library are <= 4e-15 on "
+    "every matrix clause and <= 1e-14 at N = 65537 (reference phases are reduced modulo N in integers), so the "
+    "margin is >= 4 orders of magnitude; Gaussian clauses 1e-8 (2.2e-10 measured = the Gaussian's value at the "
+    "grid edge, intrinsic to any implementation)",
+    "half-spectra: the storage ORDER of a half-spectrum is not prescribed: Hermitian weights (1 when the conjugate "
+    "partner of an entry is itself stored, 2 otherwise) and the frequency of every entry are derived from the "
+    "extracted operator; the halved axis may be either axis in 2-D. 'Half-spectrum' is read as: every stored entry "
+    "is one entry of the centred spectrum that ft / ft2 give for the same input (clause real_centred_forward)",
+    "documented parameter names (data, delta, delta_f) are part of the exported interface; integer and numpy-scalar "
+    "spacings are spacings; unsigned-integer arrays are real inputs. Boolean arrays and empty batch axes are only "
+    "observed (notes), not judged",
 ]
 TOL = 1e-10
 DELTAS = [1.0, 0.5, 3.0]
 BATCHES = [(1,), (2,), (2, 3)]
+NONSQUARE = [(a, b) for a in range(1, 6) for b in range(1, 6) if a != b]
+
+
+def _sizes(tier):
+    q = tier == "quick"
+    return {
+        "1d_spot": (64, 65, 129, 130, 257) if q else (64, 65, 129, 130, 257, 521, 1024, 1025),
+        "1dhuge": (2047, 2048, 2049, 4097) if q else (2047, 2048, 2049, 4097, 8192, 8193, 65537),
+        "2dbig": (33, 64, 130) if q else (33, 64, 65, 130, 257),
+        "gauss": (32, 33) if q else (32, 33, 64, 65, 127, 128),
+        "real1dhuge": (64, 65, 130, 257, 2048, 2049, 4096) if q else (64, 65, 130, 257, 2048, 2049, 4096, 4097, 8192, 65536, 65537),
+        "real2dbig": (32, 33, 64, 130) if q else (32, 33, 64, 65, 130, 257),
+    }
 
 
 def BOUNDS(tier):
-    return {"N_1d": list(N1(tier)), "N_2d": list(N2(tier)), "deltas": DELTAS,
-            "batch_shapes": [()] + BATCHES, "paths": ["module", "package"]}
+    b = {"N_1d": list(N1(tier)), "N_2d": list(N2(tier)), "deltas": DELTAS,
+         "batch_shapes": [()] + BATCHES, "paths": ["module", "package"],
+         "non_square_shapes_ft2_ift2": "all (Ny, Nx) in {1..5}^2 with Ny != Nx, three spacings",
+         "spacing_types": ["int 2", "numpy.int64(3)", "numpy.float32(0.5)", "numpy.float64(1e-6)", "0-d array 0.25", "1e5"],
+         "amplitudes": [1e-200, 1e-30, 1e-12, 1e-7, 1e7, 1e30, 1e200]}
+    b.update({"N_" + k: list(v) for k, v in _sizes(tier).items()})
+    b["largest_N"] = {"1d_full_operator": max(_sizes(tier)["1d_spot"]), "1d_probes": max(_sizes(tier)["1dhuge"]),
+                      "2d_full_operator": max(N2(tier)), "2d_probes": max(_sizes(tier)["2dbig"]),
+                      "real1d_full_operator": max(N1(tier)), "real1d_probes": max(_sizes(tier)["real1dhuge"]),
+                      "real2d_full_operator": max(N2(tier)), "real2d_probes": max(_sizes(tier)["real2dbig"])}
+    return b
 
 
 def N1(tier):
@@ -45,6 +85,7 @@ def N2(tier):
 
 
 def cases(tier):
+    sz = _sizes(tier)
     for path in ("module", "package"):
         for d in DELTAS:
             for N in N1(tier):
@@ -57,19 +98,30 @@ def cases(tier):
                            {"kind": "2d", "N": N, "delta": d, "path": path}, N >= 2)
                 yield Case("real2d:N=%d:d=%g:%s" % (N, d, path),
                            {"kind": "real2d", "N": N, "delta": d, "path": path}, N >= 2)
+            # non-square grids: the two axes have their own length, parity and centre sample
+            for Ny, Nx in NONSQUARE:
+                yield Case("2dns:Ny=%d:Nx=%d:d=%g:%s" % (Ny, Nx, d, path),
+                           {"kind": "2dns", "Ny": Ny, "Nx": Nx, "delta": d, "path": path})
         yield Case("storage:%s" % path, {"kind": "storage", "path": path})
+        yield Case("history:%s" % path, {"kind": "history", "path": path})
+        yield Case("calling:%s" % path, {"kind": "calling", "path": path})
         # size classes beyond the exhaustive range (FFT back ends switch algorithm with size and with large prime
         # factors): full 1-D operators, and for 2-D the transforms of all unit impulses in three rows
-        for N in ((64, 65, 129, 130, 257) if tier == "quick" else (64, 65, 129, 130, 257, 521, 1024, 1025)):
+        for N in sz["1d_spot"]:
             if N not in N1(tier):
                 yield Case("1d:N=%d:d=0.5:%s" % (N, path), {"kind": "1d", "N": N, "delta": 0.5, "path": path})
-        for N in ((2047, 2048, 2049, 4097) if tier == "quick" else (2047, 2048, 2049, 4097, 8192, 8193, 65537)):
+        for N in sz["1dhuge"]:
             yield Case("1dhuge:N=%d:%s" % (N, path), {"kind": "1dhuge", "N": N, "delta": 0.5, "path": path})
         yield Case("homogeneity:%s" % path, {"kind": "homogeneity", "path": path})
-        for N in ((33, 64, 130) if tier == "quick" else (33, 64, 65, 130, 257)):
+        for N in sz["2dbig"]:
             yield Case("2dbig:N=%d:%s" % (N, path), {"kind": "2dbig", "N": N, "delta": 0.5, "path": path})
-        for N in ((32, 33) if tier == "quick" else (32, 33, 64, 65, 127, 128)):
+        for N in sz["gauss"]:
             yield Case("gauss:N=%d:%s" % (N, path), {"kind": "gauss", "N": N, "path": path})
+        # real-input variants at the sizes of real grids (probes instead of full operators)
+        for N in sz["real1dhuge"]:
+            yield Case("real1dhuge:N=%d:%s" % (N, path), {"kind": "real1dhuge", "N": N, "delta": 0.5, "path": path})
+        for N in sz["real2dbig"]:
+            yield Case("real2dbig:N=%d:%s" % (N, path), {"kind": "real2dbig", "N": N, "delta": 0.5, "path": path})
 
 
 def _ns(path):
@@ -95,6 +147,16 @@ def evaluate(p):
         return _huge1d(o, ns, p["N"], p["delta"])
     if kind == "homogeneity":
         return _homogeneity(o, ns)
+    if kind == "history":
+        return _history(o, ns)
+    if kind == "calling":
+        return _calling(o, ns)
+    if kind == "2dns":
+        return _nonsquare(o, ns, p["Ny"], p["Nx"], p["delta"])
+    if kind == "real1dhuge":
+        return _realbig(o, ns, p["N"], p["delta"], 1)
+    if kind == "real2dbig":
+        return _realbig(o, ns, p["N"], p["delta"], 2)
     N, d = p["N"], p["delta"]
     df = 1.0 / (N * d)
     if kind == "1d":
@@ -159,11 +221,13 @@ def _huge1d(o, ns, N, d):
     values in a complex dtype; round trip and Parseval on the dense input"""
     df = 1.0 / (N * d)
     c = N // 2
-    m = numpy.arange(N) - c
+    m = numpy.arange(N, dtype=numpy.int64) - c
     worst = {"centred_forward": 0.0, "centred_inverse": 0.0, "real_dtype_same_transform": 0.0}
     for k in (0, 1, 2, c - 1, c, c + 1, N // 3, N - 2, N - 1):
-        colf = d * numpy.exp(-2j * numpy.pi * m * (k - c) / float(N))
-        coli = df * numpy.exp(2j * numpy.pi * m * (k - c) / float(N))
+        # phases reduced modulo N in integers (dft.phase): the reference is good to ~1e-16 at every N, so the
+        # measured residual (<= 1e-14 at N = 65537) is the library's and TOL keeps 4 orders of margin
+        colf = d * dft.phase(N, m * (k - c), -1)
+        coli = df * dft.phase(N, m * (k - c), +1)
         for dt in (complex, float):
             e = numpy.zeros(N, dtype=dt)
             e[k] = 1.0
@@ -189,21 +253,26 @@ def _huge1d(o, ns, N, d):
 
 def _homogeneity(o, ns):
     """ft(s x) = s ft(x) for amplitudes from 1e-200 to 1e200 (a wavefront in metres, a flux in photons): the
-    comparison is relative to the scaled result, so an absolute threshold anywhere inside shows"""
+    comparison is relative to the scaled result, so an absolute threshold anywhere inside shows.  All eight
+    transforms; the inverse real-input variants get arbitrary complex half-spectra (their result is a linear
+    function of whatever they are given).  Largest intermediate ~1e209, smallest ~1e-203: no overflow or underflow
+    in an implementation that scales before or after the FFT.  Values are compared, not dtypes."""
     for N in (8, 9, 64):
+        M = N // 2 + 1
         idx = numpy.arange(N)
         x1 = ((idx * 7) % 11 - 5.0) + 1j * ((idx * 5) % 7 - 3.25)
         x2 = numpy.add.outer(x1, 0.5j * x1[::-1]) + 0.125 * numpy.multiply.outer(idx, idx % 3)
         fns = [("ft", ns.ft, x1), ("ift", ns.ift, x1), ("ft2", ns.ft2, x2), ("ift2", ns.ift2, x2),
-               ("rft", ns.rft, x1.real.copy()), ("rft2", ns.rft2, x2.real.copy())]
+               ("rft", ns.rft, x1.real.copy()), ("rft2", ns.rft2, x2.real.copy()),
+               ("irft", ns.irft, x1[:M].copy()), ("irft2", ns.irft2, x2[:, :M].copy())]
         for name, f, x in fns:
             base = numpy.asarray(f(x.copy(), 0.5))
             for s_ in (1e-200, 1e-30, 1e-12, 1e-7, 1e7, 1e30, 1e200):
                 got = numpy.asarray(f(x * s_, 0.5))
                 o.stat("lib_calls", 1)
-                if got.shape != base.shape or got.dtype.kind != base.dtype.kind:
+                if got.shape != base.shape:
                     o.check("homogeneous_over_amplitude", False, sub="%s:N=%d:s=%g" % (name, N, s_),
-                            detail="shape/dtype %s %s vs %s %s" % (got.shape, got.dtype, base.shape, base.dtype))
+                            detail="shape %s vs %s" % (got.shape, base.shape))
                     continue
                 o.close("homogeneous_over_amplitude", _maxabs(got / s_ - base) / _maxabs(base), TOL, sub="%s:N=%d:s=%g" % (name, N, s_))
     return o
@@ -243,23 +312,52 @@ def _big2d(o, ns, N, d, df):
     return o
 
 
-def _layout(M, dc):
-    """index of frequency k in a half-spectrum stored as a cyclic rotation with DC at dc"""
-    return [(dc + k) % M for k in range(M)]
+def _partner_weights(T):
+    """Hermitian weights of the entries of a half-spectrum, derived from the extracted operator T (row j = the
+    linear functional that gives stored entry j of a real input) without any assumption on the storage order:
+    the conjugate of entry j is the entry of the opposite frequency; if that is itself stored (as entry j, for the
+    self-conjugate DC / Nyquist entries, or as another entry, as in the DC and Nyquist columns of a 2-D
+    half-spectrum) the entry counts once in the energy sum, otherwise twice.
+    |conj(T_j) - T_j'|^2 = |T_j|^2 + |T_j'|^2 - 2 Re sum_k T_jk T_j'k.  Distinct rows of a DFT are orthogonal
+    (relative distance sqrt 2), equal ones agree to ~1e-8 (cancellation in the squared distance): the threshold
+    1e-4 is a classification, not a tolerance."""
+    nrm = numpy.real(numpy.sum(T * T.conj(), axis=1))
+    d2 = nrm[:, None] + nrm[None, :] - 2.0 * numpy.real(T @ T.T)
+    rel = numpy.sqrt(numpy.maximum(d2, 0.0).min(axis=1) / numpy.maximum(nrm, 1e-300))
+    return numpy.where(rel < 1e-4, 1.0, 2.0)
+
+
+def _row_match_error(T, Fref):
+    """max over the rows of T of the distance to the best matching row of Fref (largest correlation); the
+    conjugate of a row of the centred DFT is again one of its rows, so 'up to conjugation' is included"""
+    best = numpy.argmax(numpy.real(T @ Fref.conj().T), axis=1)
+    return _maxabs(T - Fref[best])
+
+
+def _half_shapes(N, dim):
+    M = N // 2 + 1
+    return [(M,)] if dim == 1 else [(N, M), (M, N)]
 
 
 def _real(o, ns, N, d, df, dim):
     """real-input variants: irft(rft(x)) = x and half-spectrum Parseval, all real unit inputs"""
-    M = N // 2 + 1
+    import traceback
     if dim == 1:
-        shape, hshape = (N,), (M,)
+        shape = (N,)
         fwd, inv = (lambda x: ns.rft(x, d)), (lambda X: ns.irft(X, df))
         pars = d / df
     else:
-        shape, hshape = (N, N), (N, M)
+        shape = (N, N)
         fwd, inv = (lambda x: ns.rft2(x, d)), (lambda X: ns.irft2(X, df))
         pars = (d / df) ** 2
     n = int(numpy.prod(shape))
+    # N//2 + 1 entries along one axis (which axis is halved, and in which order the entries are stored, is not
+    # prescribed by the statement: discovered here)
+    hshape = tuple(numpy.asarray(fwd(linear.unit(shape, 0, 1.0, float))).shape)
+    o.stat("lib_calls", 1)
+    if hshape not in _half_shapes(N, dim):
+        o.check("real_half_spectrum_shape", False, detail="output shape %s for input shape %s" % (hshape, shape))
+        return o
     try:
         T, c = linear.operator(fwd, shape, dtype=float, out_shape=hshape)
     except ValueError as e:
@@ -267,21 +365,6 @@ def _real(o, ns, N, d, df, dim):
         return o
     o.stat("lib_calls", c)
     o.check("real_half_spectrum_shape", True)
-    # round trip on every real unit input (and therefore, by linearity, on every input)
-    worst, bad_shape = 0.0, None
-    for k in range(n):
-        x = linear.unit(shape, k, 1.0, float)
-        y = numpy.asarray(inv(fwd(x.copy())))
-        o.stat("lib_calls", 2)
-        if y.shape != x.shape:
-            bad_shape = y.shape
-            break
-        worst = max(worst, _maxabs(y - x))
-    if bad_shape is not None:
-        o.check("real_inverse_pair", False, detail="irft(rft(x)) has shape %s for input shape %s"
-                % (bad_shape, shape))
-    else:
-        o.close("real_inverse_pair", worst, TOL)
     # leading batch dimensions: every item of a stack is transformed on its own (forward and inverse)
     basev = ((numpy.arange(n) * 7) % 5 - 1.5).reshape(shape)
     worst_b = 0.0
@@ -308,24 +391,273 @@ def _real(o, ns, N, d, df, dim):
     e, k = linear.superposition_error(fwd, shape, T, dtype=float)
     o.stat("lib_calls", k)
     o.close("real_superposition", e / (d ** dim) / (4.0 * n), TOL)
-    # Parseval with Hermitian weights; the storage layout (cyclic rotation of the rfft order)
-    # is discovered from the response to a constant, so the clause does not prescribe it
-    const = numpy.asarray(fwd(numpy.ones(shape))).reshape(hshape)
-    o.stat("lib_calls", 1)
-    pos = numpy.unravel_index(int(numpy.argmax(numpy.abs(const))), hshape)
-    w1 = numpy.full(M, 2.0)
-    w1[0] = 1.0
-    if N % 2 == 0:
-        w1[M - 1] = 1.0
-    wl = numpy.empty(M)
-    wl[_layout(M, pos[-1])] = w1
-    if dim == 1:
-        W = wl
-    else:
-        W = numpy.tile(wl, (N, 1))
-    W = W.reshape(-1)
+    # Parseval with Hermitian weights derived from the operator itself (no storage order assumed)
+    W = _partner_weights(T)
     G = numpy.real(T.conj().T @ (W[:, None] * T)) / pars
     o.close("real_parseval", _maxabs(G - numpy.eye(n)), TOL)
+    # every stored entry is one entry of the centred spectrum (origin at the centre sample), whatever the order
+    F1 = dft.centred_dft(N, d)
+    o.close("real_centred_forward", _row_match_error(T, F1 if dim == 1 else dft.kron2(F1)) / d ** dim, TOL)
+    # round trip on every real unit input (and therefore, by linearity, on every input).  Last, and with an
+    # exception recorded under the id the runner would give it, so that the clauses above are judged for every N
+    # (irft raises for the half-spectrum of a single sample: part of the recorded open finding)
+    worst, bad_shape = 0.0, None
+    try:
+        for k in range(n):
+            x = linear.unit(shape, k, 1.0, float)
+            y = numpy.asarray(inv(fwd(x.copy())))
+            o.stat("lib_calls", 2)
+            if y.shape != x.shape:
+                bad_shape = y.shape
+                break
+            worst = max(worst, _maxabs(y - x))
+    except Exception:
+        o.check("no_exception", False, detail=traceback.format_exc()[-1500:])
+        return o
+    if bad_shape is not None:
+        o.check("real_inverse_pair", False, detail="irft(rft(x)) has shape %s for input shape %s"
+                % (bad_shape, shape))
+    else:
+        o.close("real_inverse_pair", worst, TOL)
+    return o
+
+
+def _realbig(o, ns, N, d, dim):
+    """real-input variants at grid sizes in use (N = 32 .. 65537): the frequency held by every entry of the
+    half-spectrum is READ from the responses to the impulses next to the centre sample (no storage order assumed),
+    then the responses to impulses elsewhere, a sparse superposition, weighted Parseval on a dense input and the
+    round trip are judged.  The 1-D round trip at odd N is the recorded open finding and is not repeated here."""
+    df = 1.0 / (N * d)
+    c = N // 2
+    if dim == 1:
+        shape = (N,)
+        fwd, inv = (lambda x: ns.rft(x, d)), (lambda X: ns.irft(X, df))
+        units = [(c + 1,)]
+        probes = [(0,), (1,), (c - 1,), (c,), (c + 1,), (N // 3,), (N - 2,), (N - 1,)]
+    else:
+        shape = (N, N)
+        fwd, inv = (lambda x: ns.rft2(x, d)), (lambda X: ns.irft2(X, df))
+        units = [(c + 1, c), (c, c + 1)]
+        probes = [(0, 0), (0, N - 1), (N - 1, 0), (c, c), (c + 1, c), (c, c + 1), (c - 1, c + 2), (N // 3, N - 1),
+                  (N - 1, N - 1)]
+    sc = d ** dim
+
+    def imp(pos):
+        e = numpy.zeros(shape)
+        e[pos] = 1.0
+        return e
+
+    freqs = []
+    hshape = None
+    for u in units:
+        r = numpy.asarray(fwd(imp(u))) / sc
+        o.stat("lib_calls", 1)
+        if hshape is None:
+            hshape = tuple(r.shape)
+            if hshape not in _half_shapes(N, dim):
+                o.check("real_half_spectrum_shape", False, detail="output shape %s for input shape %s" % (hshape, shape))
+                return o
+        elif tuple(r.shape) != hshape:
+            o.check("real_half_spectrum_shape", False, detail="output shapes %s and %s" % (hshape, r.shape))
+            return o
+        # one sample off the centre: the entry of frequency f is exp(-2 pi i f / N); adjacent frequencies are
+        # 2 pi / N >= 9.6e-5 rad apart, rounding errors ~1e-16
+        freqs.append(numpy.rint(-numpy.angle(r) * N / (2 * numpy.pi)).astype(numpy.int64) % N)
+    o.check("real_half_spectrum_shape", True)
+
+    def expected(pos):
+        prod = sum(f * (q - c) for f, q in zip(freqs, pos))
+        return sc * dft.phase(N, prod, -1)
+
+    worst = 0.0
+    acc_in = numpy.zeros(shape)
+    acc_out = numpy.zeros(hshape, dtype=complex)
+    tot = 0.0
+    for i, pos in enumerate(probes):
+        Y = numpy.asarray(fwd(imp(pos)))
+        o.stat("lib_calls", 1)
+        if Y.shape != hshape:
+            o.check("real_half_spectrum_shape", False, sub="impulse=%s" % (pos,), detail="shape %s" % (Y.shape,))
+            return o
+        want = expected(pos)
+        worst = max(worst, _maxabs(Y - want) / sc)
+        a = (1 + (3 * i) % 5) * (1 - 2 * (i % 3 == 0))
+        acc_in[pos] += a
+        acc_out += a * want
+        tot += abs(a)
+    o.close("real_centred_forward", worst, TOL)
+    Y = numpy.asarray(fwd(acc_in.copy()))
+    o.stat("lib_calls", 1)
+    o.close("real_superposition", _maxabs(Y - acc_out) / sc / tot, TOL)
+    # Hermitian weights: an entry whose opposite frequency is stored too counts once, otherwise twice
+    key = freqs[0] if dim == 1 else freqs[0] * N + freqs[1]
+    opp = (-freqs[0]) % N if dim == 1 else ((-freqs[0]) % N) * N + (-freqs[1]) % N
+    W = numpy.where(numpy.isin(opp, key), 1.0, 2.0)
+    idx = numpy.arange(int(numpy.prod(shape)))
+    x = (((idx * 7) % 11 - 5.0) + 0.25 * ((idx * 3) % 5)).reshape(shape)
+    X = numpy.asarray(fwd(x.copy()))
+    o.stat("lib_calls", 1)
+    if X.shape != hshape:
+        o.check("real_half_spectrum_shape", False, sub="dense", detail="shape %s" % (X.shape,))
+        return o
+    o.close("real_parseval", abs(numpy.sum(W * numpy.abs(X) ** 2) * df ** dim / (numpy.sum(x ** 2) * sc) - 1.0), TOL)
+    if dim == 2 or N % 2 == 0:
+        worst_rt = 0.0
+        for xin in [x, acc_in] + [imp(pos) for pos in probes[:4]]:
+            back = numpy.asarray(inv(fwd(xin.copy())))
+            o.stat("lib_calls", 2)
+            if back.shape != xin.shape:
+                o.check("real_inverse_pair", False, detail="irft(rft(x)) has shape %s for input shape %s" % (back.shape, xin.shape))
+                return o
+            worst_rt = max(worst_rt, _maxabs(back - xin) / _maxabs(xin))
+        o.close("real_inverse_pair", worst_rt, TOL)
+    return o
+
+
+def _nonsquare(o, ns, Ny, Nx, d):
+    """ft2 / ift2 on a grid whose axes differ in length (and parity, and centre sample): full operators.
+    Forward: each axis is centred on ITS centre sample and Parseval holds with delta_f = 1/(N delta) per axis.
+    Inverse: the statement's delta_f = 1/(N delta) does not say which N; ift2 must invert ft2 for one of the three
+    readings, and be proportional to the inverse for 1/(Nx delta)."""
+    shape = (Ny, Nx)
+    n = Ny * Nx
+    dfx, dfy = 1.0 / (Nx * d), 1.0 / (Ny * d)
+    fwd = lambda x: ns.ft2(x, d)
+    try:
+        ok = (numpy.asarray(fwd(linear.unit(shape, 0))).shape == shape
+              and numpy.asarray(ns.ift2(linear.unit(shape, 0), dfx)).shape == shape)
+    except Exception:
+        ok = False
+    o.stat("lib_calls", 2)
+    if not ok:
+        # a library that serves square grids only (raises, or returns another shape) is not judged here
+        o.stat("non_square_not_claimed", 1)
+        return o
+    F, c1 = linear.operator(fwd, shape, out_shape=shape)
+    Fi, c2 = linear.operator_imag(fwd, shape)
+    o.stat("lib_calls", c1 + c2)
+    I = numpy.eye(n)
+    o.close("complex_linear", _maxabs(Fi - 1j * F) / (d * d), TOL)
+    e1, k1 = linear.superposition_error(fwd, shape, F)
+    o.stat("lib_calls", k1)
+    o.close("superposition", e1 / (d * d) / (4.0 * n), TOL)
+    o.close("centred_forward", _maxabs(F - dft.kron2(dft.centred_dft(Ny, d), dft.centred_dft(Nx, d))) / (d * d), TOL)
+    o.close("parseval", _maxabs(F.conj().T @ F / (d ** 4 * n) - I), TOL)
+    errs, Gs = [], []
+    for df in (dfx, dfy, 1.0 / (numpy.sqrt(float(n)) * d)):
+        G, c3 = linear.operator(lambda X: ns.ift2(X, df), shape, out_shape=shape)
+        o.stat("lib_calls", c3)
+        Gs.append(G)
+        errs.append(_maxabs(G @ F - I))
+    best = int(numpy.argmin(errs))
+    o.note("non_square_delta_f_reading", ["1/(Nx delta)", "1/(Ny delta)", "1/(sqrt(Nx Ny) delta)"][best])
+    o.close("inverse_ift_ft", errs[best], TOL)
+    o.close("inverse_ft_ift", _maxabs(F @ Gs[best] - I), TOL)
+    o.close("centred_inverse", _maxabs(Gs[best] - dft.kron2(dft.centred_idft(Ny, dfy), dft.centred_idft(Nx, dfx))) / (dfx * dfy), TOL)
+    P = Gs[0] @ F
+    cst = numpy.trace(P) / n
+    o.close("inverse_ift_ft", _maxabs(P / cst - I) if abs(cst) > 1e-300 else float("inf"), TOL, sub="up_to_scale")
+    # a stack of non-square frames: per-item equality (library against library)
+    base = ((numpy.arange(1, n + 1) % 4 - 1.5) + 1j * ((numpy.arange(n) * 5) % 3 - 1)).reshape(shape)
+    st = numpy.array([numpy.roll(base, 2 * i + 1) * (i + 1) for i in range(3)])
+    worst = 0.0
+    for f in (fwd, lambda X: ns.ift2(X, dfx)):
+        Y = numpy.asarray(f(st.copy()))
+        o.stat("lib_calls", 4)
+        if Y.shape != st.shape:
+            o.check("batch_per_item", False, sub="batch=(3,)", detail="shape %s" % (Y.shape,))
+            continue
+        for i in range(3):
+            y1 = numpy.asarray(f(st[i].copy()))
+            worst = max(worst, _maxabs(Y[i] - y1) / max(_maxabs(y1), 1e-300))
+    o.close("batch_per_item", worst, TOL)
+    return o
+
+
+def _fixtures():
+    i, j = numpy.indices((6, 6))
+    re2 = ((3 * i * i + 5 * j + 2 * i * j) % 13 - 4).astype(float)
+    cx2 = re2 + 1j * re2.T[::-1]
+    return re2, cx2
+
+
+def _history(o, ns):
+    """call histories on ONE caller-owned array (mc.variants.check_reuse): the transform leaves its argument as it
+    was, a second call and a call after the caller's in-place edit answer for the current values, a held result is
+    not overwritten by later calls.  All eight transforms, single frames and stacks."""
+    from mc import variants
+    re2, cx2 = _fixtures()
+    items = [("ft", lambda a: ns.ft(a, 0.5), cx2[1].copy()), ("ift", lambda a: ns.ift(a, 0.5), cx2[2].copy()),
+             ("ft:real", lambda a: ns.ft(a, 0.5), re2[1].copy()), ("ft:rows", lambda a: ns.ft(a, 0.5), cx2),
+             ("ft2", lambda a: ns.ft2(a, 0.5), cx2), ("ift2", lambda a: ns.ift2(a, 0.5), cx2),
+             ("ft2:real", lambda a: ns.ft2(a, 0.5), re2), ("ft2:stack", lambda a: ns.ft2(a, 0.5), numpy.array([cx2, cx2.T + 1.0])),
+             ("ift2:stack", lambda a: ns.ift2(a, 0.5), numpy.array([cx2, cx2.T + 1.0])),
+             ("rft", lambda a: ns.rft(a, 0.5), re2[1].copy()), ("rft2", lambda a: ns.rft2(a, 0.5), re2),
+             ("rft2:stack", lambda a: ns.rft2(a, 0.5), numpy.array([re2, re2.T + 1.0])),
+             ("irft", lambda a: ns.irft(a, 0.5), cx2[1, :4].copy()), ("irft:rows", lambda a: ns.irft(a, 0.5), cx2[:, :4].copy()),
+             ("irft2", lambda a: ns.irft2(a, 0.5), cx2[:, :4].copy()),
+             ("irft2:stack", lambda a: ns.irft2(a, 0.5), numpy.array([cx2[:, :4], cx2.T[:, :4] + 1.0]))]
+    for name, f, data in items:
+        o.stat("lib_calls", variants.check_reuse(o, "history", f, data, 1e-12, sub=name))
+    return o
+
+
+def _calling(o, ns):
+    """the exported interface: documented keyword names, and spacings that are not Python floats (int, numpy
+    scalars, 0-d array, physical magnitudes).  Oracle: the library's own positional call with delta = 0.5 and the
+    exact scaling law  f(x, delta) = (delta / 0.5)**dim * f(x, 0.5)."""
+    re2, cx2 = _fixtures()
+    N, M = 6, 4
+    fns = [("ft", ns.ft, "delta", cx2[1].copy(), 1), ("ift", ns.ift, "delta_f", cx2[2].copy(), 1),
+           ("ft2", ns.ft2, "delta", cx2, 2), ("ift2", ns.ift2, "delta_f", cx2, 2),
+           ("rft", ns.rft, "delta", re2[1].copy(), 1), ("irft", ns.irft, "delta_f", cx2[1, :M].copy(), 1),
+           ("rft2", ns.rft2, "delta", re2, 2), ("irft2", ns.irft2, "delta_f", cx2[:, :M].copy(), 2)]
+    spacings = [("int:2", 2, 1e-12), ("numpy.int64:3", numpy.int64(3), 1e-12),
+                # a float32 spacing may legitimately make the scale factor single precision
+                ("numpy.float32:0.5", numpy.float32(0.5), 1e-6), ("numpy.float64:1e-6", numpy.float64(1e-6), 1e-12),
+                ("0-d array:0.25", numpy.array(0.25), 1e-12), ("float:1e5", 1e5, 1e-12)]
+    for name, f, kw, x, dim in fns:
+        base = numpy.asarray(f(x.copy(), 0.5))
+        o.stat("lib_calls", 1)
+        try:
+            got = numpy.asarray(f(**{"data": x.copy(), kw: 0.5}))
+            o.close("keyword_call_same_result", _maxabs(got - base) / _maxabs(base) if got.shape == base.shape else float("inf"),
+                    1e-12, sub=name)
+        except Exception as e:
+            o.check("keyword_call_same_result", False, sub=name, detail="%s: %s" % (type(e).__name__, str(e)[:200]))
+        o.stat("lib_calls", 1)
+        for sname, sp, tol in spacings:
+            try:
+                got = numpy.asarray(f(x.copy(), sp))
+            except Exception as e:
+                o.check("spacing_type_same_result", False, sub="%s:%s" % (name, sname), detail="%s: %s" % (type(e).__name__, str(e)[:200]))
+                continue
+            finally:
+                o.stat("lib_calls", 1)
+            want = base * (float(sp) / 0.5) ** dim
+            o.close("spacing_type_same_result", _maxabs(got - want) / _maxabs(want) if got.shape == want.shape else float("inf"),
+                    tol, sub="%s:%s" % (name, sname))
+    # round trips at a physical pixel size (1 um pixels, delta_f = 1/(N delta) ~ 1.7e5 per metre)
+    d = 1e-6
+    df = 1.0 / (N * d)
+    for name, fw, iv, x in (("1d", ns.ft, ns.ift, cx2[1].copy()), ("2d", ns.ft2, ns.ift2, cx2),
+                            ("real1d", ns.rft, ns.irft, re2[1].copy()), ("real2d", ns.rft2, ns.irft2, re2)):
+        for dd, ddf, sname in ((d, df, "float"), (numpy.float64(d), numpy.float64(df), "numpy.float64")):
+            back = numpy.asarray(iv(fw(x.copy(), dd), ddf))
+            o.stat("lib_calls", 2)
+            o.close("inverse_at_physical_spacing", _maxabs(back - x) / _maxabs(x) if back.shape == x.shape else float("inf"),
+                    TOL, sub="%s:%s" % (name, sname))
+    # observed only: batch axes of length 0 (inside "all batch shapes" read literally, but a per-item formulation
+    # that cannot handle them is not a broken transform)
+    empties = {}
+    for name, f, kw, x, dim in fns:
+        e = numpy.zeros((0,) + x.shape, dtype=x.dtype)
+        try:
+            empties[name] = list(numpy.asarray(f(e, 0.5)).shape)
+        except Exception as ex:
+            empties[name] = type(ex).__name__
+        o.stat("lib_calls", 1)
+    o.note("empty_batch_axis_result_shapes", empties)
     return o
 
 
@@ -358,12 +690,17 @@ def _gauss(o, ns, N):
     return o
 
 ENGINES = ["E1-product-enumeration", "E2-basis-exhaustion"]
-LEVEL_TEXT = ("Every length N in the bound (1..12 quick / 1..33 thorough in 1-D, 1..7 / 1..12 in 2-D), "
-              "three spacings, four batch shapes and both access paths are enumerated completely; for each "
-              "the full operator matrix of every transform is extracted from all unit inputs, so inverse-pair, "
-              "Parseval and centring hold for all inputs of those lengths, not for sampled ones.")
+LEVEL_TEXT = ("Every length N in the bound (1..12 quick / 1..130 thorough in 1-D, 1..7 / 1..24 in 2-D, plus every "
+              "non-square grid (Ny, Nx) in {1..5}^2 for ft2/ift2), three spacings, four batch shapes and both access "
+              "paths are enumerated completely; for each the full operator matrix of every transform is extracted "
+              "from all unit inputs, so inverse-pair, Parseval and centring hold for all inputs of those lengths, "
+              "not for sampled ones. Larger sizes (full 1-D operators to 257 / 1025, impulse probes to 4097 / 65537 "
+              "in 1-D and 130 / 257 in 2-D, complex and real-input variants), amplitudes 1e-200..1e200, storage "
+              "layouts and dtypes, call histories on one array, keyword calls and spacing types are fixed spot cases.")
 LEVEL_NOTE = ("Trusted: numpy matrix arithmetic and the reference centred-DFT matrix (mc/refmodels/dft.py). "
-              "Not covered: lengths beyond the bound, non-square 2-D grids, spacings outside the alphabet.")
+              "Not covered: lengths beyond the bound, non-square grids beyond 5 x 5 and for rft2/irft2, spacings "
+              "outside the alphabet. The storage order of half-spectra is not prescribed (weights and frequencies "
+              "are derived from the library's own operator).")
 
 
 def _storage(o, ns):
@@ -375,6 +712,7 @@ def _storage(o, ns):
     re2 = ((3 * i * i + 5 * j + 2 * i * j) % 13 - 4).astype(float)
     x1 = re2[1].copy()
     st = numpy.array([re2, re2.T + 1.0])
+    single = 0.0
     for name, f, data in (("ft:1d", lambda a: ns.ft(a, 0.5), x1), ("ift:1d", lambda a: ns.ift(a, 0.5), x1),
                           ("ft:rows", lambda a: ns.ft(a, 0.5), re2), ("ft2", lambda a: ns.ft2(a, 0.5), re2),
                           ("ift2", lambda a: ns.ift2(a, 0.5), re2), ("ft2:stack", lambda a: ns.ft2(a, 0.5), st),
@@ -383,6 +721,7 @@ def _storage(o, ns):
         n = variants.check_storage(o, "transform_independent_of_storage", f, data, 1e-12, sub=name,
                                    kinds=("float32", "int64", "int32"))
         o.stat("lib_calls", n)
+        single = max(single, _single_precision_error(f, data))
     # two leading batch axes (a frame cut into sub-apertures, a cube of cubes), in every memory order of those axes
     st4 = numpy.array([[re2, re2.T + 1.0, re2 * 2.0], [re2[::-1] - 1.0, re2 + 0.5 * re2.T, re2.T * 3.0]])
     cut = (numpy.arange(144.0).reshape(12, 12) % 7 - 3.0).reshape(2, 6, 2, 6).swapaxes(1, 2)       # non-contiguous as is
@@ -403,4 +742,49 @@ def _storage(o, ns):
     for name, f in (("ft2:complex", lambda a: ns.ft2(a, 0.5)), ("ift2:complex", lambda a: ns.ift2(a, 0.5))):
         n = variants.check_storage(o, "transform_independent_of_storage", f, cx, 1e-12, sub=name, kinds=("float32",))
         o.stat("lib_calls", n)
+        single = max(single, _single_precision_error(f, cx))
+    # half-spectra handed to the inverse real-input variants: read-only, strided, Fortran-ordered, complex64, and
+    # the first N//2 + 1 columns of a full spectrum taken as a view (how a caller cuts a half-spectrum out)
+    cx1 = cx[1].copy()
+    wide = numpy.array([cx, cx.T + 1.0])
+    for name, f, full in (("irft", lambda a: ns.irft(a, 0.5), cx1), ("irft:rows", lambda a: ns.irft(a, 0.5), cx),
+                          ("irft2", lambda a: ns.irft2(a, 0.5), cx), ("irft2:stack", lambda a: ns.irft2(a, 0.5), wide)):
+        view = full[..., :4]
+        data = numpy.ascontiguousarray(view)
+        n = variants.check_storage(o, "transform_independent_of_storage", f, data, 1e-12, sub=name, kinds=("float32",))
+        o.stat("lib_calls", n + 2)
+        got, want = numpy.asarray(f(view)), numpy.asarray(f(data.copy()))
+        o.close("transform_independent_of_storage", _maxabs(got - want) / max(_maxabs(want), 1e-300) if got.shape == want.shape else float("inf"),
+                1e-12, sub=name + ":leading_columns_view")
+        single = max(single, _single_precision_error(f, data))
+    # unsigned data (camera frames, pupil masks as uint8 / uint16): same values, same spectrum
+    un2 = ((3 * i * i + 5 * j + 2 * i * j) % 13).astype(float)
+    for name, f, data in (("ft:unsigned", lambda a: ns.ft(a, 0.5), un2[1].copy()), ("ift:unsigned", lambda a: ns.ift(a, 0.5), un2[1].copy()),
+                          ("ft2:unsigned", lambda a: ns.ft2(a, 0.5), un2), ("ift2:unsigned", lambda a: ns.ift2(a, 0.5), un2),
+                          ("rft:unsigned", lambda a: ns.rft(a, 0.5), un2[1].copy()), ("rft2:unsigned", lambda a: ns.rft2(a, 0.5), un2),
+                          ("ft2:unsigned:stack", lambda a: ns.ft2(a, 0.5), numpy.array([un2, un2.T]))):
+        n = variants.check_storage(o, "transform_independent_of_storage", f, data, 1e-12, sub=name, kinds=("uint8", "uint16"),
+                                   with_layouts=False)
+        o.stat("lib_calls", n)
+    # observed only: the largest error of a single-precision variant (judged above against 1e-5, where the report
+    # shows no measure), and boolean masks (not 'real/complex inputs' in the strict sense)
+    o.note("single_precision_variant_worst_error", single)
+    mask = (un2 % 3 == 0)
+    obs = {}
+    for name, f in (("ft", lambda a: ns.ft(a, 0.5)), ("ft2", lambda a: ns.ft2(a, 0.5)), ("rft2", lambda a: ns.rft2(a, 0.5))):
+        try:
+            obs[name] = _maxabs(numpy.asarray(f(mask.copy())) - numpy.asarray(f(mask.astype(float))))
+        except Exception as e:
+            obs[name] = type(e).__name__
+        o.stat("lib_calls", 2)
+    o.note("boolean_mask_difference_from_float_mask", obs)
     return o
+
+
+def _single_precision_error(f, data):
+    try:
+        lo = data.astype(numpy.complex64 if numpy.iscomplexobj(data) else numpy.float32)
+        a, b = numpy.asarray(f(lo)), numpy.asarray(f(data.copy()))
+        return _maxabs(a - b) / max(1.0, _maxabs(b)) if a.shape == b.shape else float("inf")
+    except Exception:
+        return float("inf")
